@@ -88,7 +88,7 @@ func TestC03(t *testing.T) {
 		r.Assumptions = []string{"workflow-syntax model in harness/wf (written from GitHub's syntax reference)", "only single-line scalars are replaced", "exempt from the template clause: event names, input type, permissions values, secrets: inherit"}
 		covered := map[string]int64{}
 		unclean := 0
-		r.Check(t, "leaves", hx.N(60, 1500), func(rt *rapid.T) {
+		r.Check(t, "leaves", hx.N(60, 800), func(rt *rapid.T) {
 			g := &wf.G{T: rt, Rare: rapid.Bool().Draw(rt, "rare")}
 			w := g.Workflow()
 			g.Styles(w.Root)
